@@ -43,8 +43,8 @@ Definition default_prefs : prefs := prefs_of prefs_defaults.
 Definition minified_prefs : prefs := prefs_of prefs_minified.
 
 (* ---- string helpers ---- *)
-Definition is_ws (c : N) : bool := (c =? 32) || ((9 <=? c) && (c <=? 13)) || ((28 <=? c) && (c <=? 31)) || (c =? 133) || (c =? 160).
-(* str.strip() == '' for the strings Out ever tests: all characters white space *)
+Definition is_ws (c : N) : bool := (c =? 32) || (c =? 9) || (c =? 10) || (c =? 12) || (c =? 13).
+(* str.strip(' \t\r\n\f') == '': all characters CSS white space (U+00A0 and the like are name characters) *)
 Definition all_ws (s : str) : bool := forallb is_ws s.
 Definition ends_with_space (s : str) : bool := match rev s with c :: _ => c =? 32 | [] => false end.
 (* val.endswith(' ') and not val.endswith('\\ '): an escaped space at the end of a name is no S *)
